@@ -69,7 +69,13 @@ fn valid_line(t: u8, a: u8, i: usize, labels: &mut Vec<String>) -> Vec<String> {
             vec![format!("{}: nop", l)]
         }
         4 => vec![format!(".dw {}, {}", a, (a as usize * 7) % 100)],
-        5 => vec!["; just a comment".into()],
+        5 => vec![match a % 4 {
+            0 => "; just a comment".into(),
+            // comments that end in characters some tools read as "the line goes on"
+            1 => "; table in c:\\dir\\".to_string(),
+            2 => "nop ; ends with a backslash \\".to_string(),
+            _ => "// ends with a comma,".to_string(),
+        }],
         6 => vec![String::new()],
         7 => vec![format!(".equ eq{}x = {}", i, a)],
         8 => vec![format!(".set sv{}x = {}", i % 3, a)],
